@@ -301,7 +301,7 @@ pub fn property() -> Property {
         parts: vec![Box::new(GenPart {
             name: "frames",
             rule: "see property rule",
-            cases: (1_500_000, 5_000_000),
+            cases: (1_500_000, 30_000_000),
             fuzz_decode: Some(crate::fuzzdec::c10_case),
             strategy,
             check,
